@@ -208,6 +208,69 @@ def extremeMargin (tol2 : K) (a b : V3 K) : Bool :=
 
 end Extreme
 
+/-! ### Call sequences on one arc object (purity of the primitives)
+
+  A caller hands the SAME array to several primitives one after the other.  In the model a
+  primitive is a function of the VALUES and returns the state it was given, so every answer in
+  every history is the answer on the original values (`Props/C14.lean`: `session_state_const`,
+  `session_answers`).  The harness checks the two observable halves of that on the
+  implementation: no call changes the bytes of an argument, and every answer of a sequence on a
+  shared object equals the answer on a fresh copy of the original values.
+
+  `runWith` is the same loop for an arbitrary step function; `stepOverwrite` is a step that
+  "walks" the first end point to the interior extreme in place (the shape of an in-place
+  `node3 = n1; node3 += d*(n2 - n1)`), used as the witness that the clause is not vacuous. -/
+section Session
+variable {K : Type} [Add K] [Sub K] [Mul K] [Neg K] [Div K] [OfNat K 0] [OfNat K 1] [LE K] [LT K]
+  [DecidableEq K] [DecidableLE K] [DecidableLT K]
+
+/-- one call on the shared arc `(a, b)` -/
+inductive Op (K : Type) where
+  | extMax                       -- extreme_gca_latitude(g, "max")
+  | extMin                       -- extreme_gca_latitude(g, "min")
+  | within (p : V3 K)            -- point_within_gca(p, g)
+  | meetFirst (c d : V3 K)       -- gca_gca_intersection(g, [c, d])
+  | meetSecond (c d : V3 K)      -- gca_gca_intersection([c, d], g)
+
+inductive Ans (K : Type) where
+  | ext (v : Bool × K)
+  | bool (b : Bool)
+  | pts (l : List (V3 K))
+deriving DecidableEq
+
+/-- the answer of a call as a function of the VALUES of the arc -/
+def answer (a b : V3 K) : Op K → Ans K
+  | .extMax => .ext (extremeMax a b)
+  | .extMin => .ext (extremeMin a b)
+  | .within p => .bool (decide (OnArc a b p))
+  | .meetFirst c d => .pts (intersections a b c d)
+  | .meetSecond c d => .pts (intersections c d a b)
+
+abbrev Arc (K : Type) := V3 K × V3 K
+
+/-- a pure primitive: answers from the values, hands the object back unchanged -/
+def step (s : Arc K) (op : Op K) : Arc K × Ans K := (s, answer s.1 s.2 op)
+
+/-- a sequence of calls with an arbitrary step function -/
+def runWith (st : Arc K → Op K → Arc K × Ans K) (s : Arc K) : List (Op K) → Arc K × List (Ans K)
+  | [] => (s, [])
+  | op :: ops =>
+    let r := st s op
+    let rest := runWith st r.1 ops
+    (rest.1, r.2 :: rest.2)
+
+def runSession (s : Arc K) (ops : List (Op K)) : Arc K × List (Ans K) := runWith step s ops
+
+/-- an impure step: the answer is right, but an interior extreme leaves the (un-normalised)
+    chord point `node3` in the slot of the first end point -/
+def stepOverwrite (s : Arc K) (op : Op K) : Arc K × Ans K :=
+  match op with
+  | .extMax | .extMin =>
+    (if codeInterior s.1 s.2 then (node3 s.1 s.2, s.2) else s, answer s.1 s.2 op)
+  | _ => (s, answer s.1 s.2 op)
+
+end Session
+
 /-! ### The longitude/latitude interval logic of the UNREPAIRED `_point_within_gca_body`
     (the branch for arcs through a pole), transcribed with exact comparisons in place of
     `isclose`, `pi` being a parameter.  Kept as the regression witness of the defects that
